@@ -5,9 +5,9 @@ From ReqV Require Import Lib.Bytes Lib.BigEndian Model.QuicVarint Model.H3Frame 
 Open Scope N_scope.
 
 (* the parser's result does not depend on the fuel once it exceeds the input: no fuel artefact *)
-Theorem h3_frame_parse_total f input :
-  (length input < f)%nat -> h3_parse_next_fuel f input = h3_parse_next input.
-Proof. intros H. unfold h3_parse_next. apply parse_next_fuel_irrelevant; lia. Qed.
+Theorem h3_frame_parse_total body f input :
+  (length input < f)%nat -> h3_parse_next_fuel body f input = h3_parse_next_b body input.
+Proof. intros H. unfold h3_parse_next_b. apply parse_next_fuel_irrelevant; lia. Qed.
 
 Lemma settings_frame_rest input l : (length (snd (h3_parse_settings_frame input l)) <= length input)%nat.
 Proof.
@@ -16,7 +16,7 @@ Proof.
   destruct (h3_parse_settings_payload _); cbn [snd]; rewrite skipn_length; lia.
 Qed.
 
-Lemma parse_next_fuel_rest : forall f input, (length (snd (h3_parse_next_fuel f input)) <= length input)%nat.
+Lemma parse_next_fuel_rest body : forall f input, (length (snd (h3_parse_next_fuel body f input)) <= length input)%nat.
 Proof.
   induction f as [|f IH]; intros input; cbn [h3_parse_next_fuel]; [cbn; lia|].
   destruct (vi_read input) as [[t r1]|] eqn:R1; [|cbn; lia].
@@ -31,7 +31,7 @@ Proof.
 Qed.
 
 (* what is left in the reader is never more than what was there: the parser only consumes *)
-Theorem h3_parse_only_consumes input : (length (snd (h3_parse_next input)) <= length input)%nat.
+Theorem h3_parse_only_consumes body input : (length (snd (h3_parse_next_b body input)) <= length input)%nat.
 Proof. apply parse_next_fuel_rest. Qed.
 
 (* SETTINGS cap: a frame announcing more than the cap is refused with the reader untouched
@@ -41,11 +41,11 @@ Theorem h3_settings_over_cap input l :
 Proof. intros H. unfold h3_parse_settings_frame. destruct (N.ltb_spec h3SettingsMaxLen l); [reflexivity|lia]. Qed.
 
 (* ... and an accepted SETTINGS frame had a payload within the cap *)
-Theorem h3_settings_cap input s rest :
-  h3_parse_next input = (H3Ok (H3Settings s), rest) ->
+Theorem h3_settings_cap body input s rest :
+  h3_parse_next_b body input = (H3Ok (H3Settings s), rest) ->
   exists payload, lenN payload <= h3SettingsMaxLen /\ h3_parse_settings_payload payload = H3Ok s.
 Proof.
-  intros H. apply h3_parse_next_ok_inv in H as (sk & et & el & t & l & body & _ & _ & _ & _ & Cases).
+  intros H. apply h3_parse_next_ok_inv in H as (sk & et & el & t & l & bd & _ & _ & _ & _ & Cases).
   destruct Cases as [(_ & E & _)|[(_ & E & _)|(_ & Hl & payload & s' & _ & Hp & Hs & E)]]; try discriminate.
   inversion E; subst. exists payload. split; [lia|assumption].
 Qed.
@@ -60,7 +60,7 @@ Theorem h3_header_within_limit max input block rest :
   h3_read_head max input = HdOk block rest ->
   lenN block <= max /\ (length block + length rest <= length input)%nat.
 Proof.
-  unfold h3_read_head. pose proof (h3_parse_only_consumes input) as Hc.
+  unfold h3_read_head. pose proof (h3_parse_only_consumes false input) as Hc. fold (h3_parse_next input) in Hc.
   destruct (h3_parse_next input) as [[[l0|l|s]|e] r]; try discriminate.
   destruct (N.ltb_spec max l) as [Hm|Hm]; [discriminate|]. destruct (N.ltb_spec (lenN r) l) as [Hr|Hr]; [discriminate|].
   intros E. inversion E; subst. cbn [snd] in Hc. unfold lenN in *.
